@@ -35,7 +35,8 @@ def plan(tier, seed):
 def make_text(seed):
     r = random.Random(seed)
     knobs = gen.Knobs(items=r.choice([2, 3, 4]), members=r.choice([3, 5]), ns_depth=r.choice([1, 2]))
-    g = gen.WildGen(seed, knobs, typedefs=True, typedef_same_ns=True, param_use=0.3, this_use=0.05, special_names=0.1)
+    g = gen.WildGen(seed, knobs, typedefs=True, typedef_same_ns=True, param_use=0.3, this_use=0.05, special_names=0.1,
+                    inst_namesakes=0.3, class_template_p=0.5)
     text = render.render(g.module())
     if r.random() < 0.5:
         # several headers, some of them included more than once (any order-by-hash of the include block shows)
